@@ -7,12 +7,13 @@ namespace PegVerif
 
 /-! ## (E) the escape table -/
 
-/-- A row: spelling (runes, starting with the backslash) and the code point it must denote. -/
-abbrev EscRow := List Sym × Sym
+/-- A row: spelling (runes, starting with the backslash) and what it must mean: the code point it
+    denotes, or the errors it is reported with. -/
+abbrev EscRow := List Sym × EscDen
 
 /-- `\a \b \e \f \n \r \t \v` and their upper-case forms (the escapes are double-quoted in
     peg.peg, hence case-insensitive), `\' \" \[ \] \- \\`. -/
-def namedRows : List EscRow :=
+def namedRows : List EscRow := List.map (fun r => (r.1, EscDen.cp r.2))
   [ ([92, 97], 7), ([92, 98], 8), ([92, 101], 27), ([92, 102], 12), ([92, 110], 10), ([92, 114], 13),
     ([92, 116], 9), ([92, 118], 11),
     ([92, 65], 7), ([92, 66], 8), ([92, 69], 27), ([92, 70], 12), ([92, 78], 10), ([92, 82], 13),
@@ -25,8 +26,8 @@ def oct3 (v : Nat) : List Sym := [92, 48 + v / 64, 48 + v / 8 % 8, 48 + v % 8]
 
 /-- Every octal spelling: `\0`…`\7`, `\00`…`\77`, `\000`…`\377`. -/
 def octalRows : List EscRow :=
-  (List.range 8).map (fun v => (oct1 v, v)) ++ (List.range 64).map (fun v => (oct2 v, v)) ++
-  (List.range 256).map (fun v => (oct3 v, v))
+  (List.range 8).map (fun v => (oct1 v, .cp v)) ++ (List.range 64).map (fun v => (oct2 v, .cp v)) ++
+  (List.range 256).map (fun v => (oct3 v, .cp v))
 
 def hexDigitSym (d : Nat) (upper : Bool) : Sym :=
   if d < 10 then 48 + d else (if upper then 55 else 87) + d
@@ -36,8 +37,18 @@ def hexDigits (upper : Bool) : Nat → Nat → List Sym → List Sym
   | f + 1, v, acc =>
     if v < 16 then hexDigitSym v upper :: acc
     else hexDigits upper f (v / 16) (hexDigitSym (v % 16) upper :: acc)
+/-- The digits of a hex spelling of `v`: `zeros` leading zeros, then the digits of `v`. -/
+def hexDs (dUpper : Bool) (zeros : Nat) (v : Nat) : List Sym :=
+  List.replicate zeros 48 ++ hexDigits dUpper 40 v []
 def hexSp (xUpper dUpper : Bool) (zeros : Nat) (v : Nat) : List Sym :=
-  [92, 48, if xUpper then 88 else 120] ++ List.replicate zeros 48 ++ hexDigits dUpper 40 v []
+  [92, 48, if xUpper then 88 else 120] ++ hexDs dUpper zeros v
+
+/-- What a hex escape with digits `ds` of value `v` must mean: the code point `v` if `v` is one,
+    else the error that names the escape as written. -/
+def hexDen (ds : List Sym) (v : Nat) : EscDen :=
+  if isCodePoint v = true then .cp v else .err [hexErrMsg ds]
+def hexRow (xUpper dUpper : Bool) (zeros : Nat) (v : Nat) : EscRow :=
+  (hexSp xUpper dUpper zeros v, hexDen (hexDs dUpper zeros v) v)
 
 /-- Representative hex values: boundaries of ASCII, Latin-1, the BMP, the surrogate block, the
     code space, int32, uint32, uint64. -/
@@ -47,12 +58,17 @@ def hexValues : List Nat :=
    0x80000000, 0xffffffff, 0x100000000, 0xffffffffffffffff, 0x10000000000000000,
    0xffffffffffffffffffff]
 
-/-- `\0x…`, `\0X…`, upper-case digits, leading zeros.  Expected: the code point, U+FFFD when the
-    value is none (the CURRENT behaviour of the builder, see `escape_hex_spec`). -/
+/-- `\0x…`, `\0X…`, upper-case digits, leading zeros.  Expected: the code point; when the value is
+    none (surrogates, above U+10FFFF), the error naming the escape. -/
 def hexRows : List EscRow :=
   hexValues.flatMap (fun v =>
-    [ (hexSp false false 0 v, clampRune v), (hexSp true false 0 v, clampRune v),
-      (hexSp false true 0 v, clampRune v), (hexSp false false 3 v, clampRune v) ])
+    [ hexRow false false 0 v, hexRow true false 0 v, hexRow false true 0 v, hexRow false false 3 v ])
+
+/-- The rows of the table that are errors: 4 spellings each of 0xd800, 0xdbff, 0xdfff, 0x110000,
+    0x7fffffff, 0x80000000, 0xffffffff, 0x100000000, 2^64-1, 2^64, 2^80-1. -/
+theorem hexRows_errors :
+    (hexRows.filter (fun row => match row.2 with | .err _ => true | .cp _ => false)).length = 44 := by
+  kernel_rfl
 
 def escTable : List EscRow := namedRows ++ octalRows ++ hexRows
 
